@@ -34,8 +34,9 @@ RULE = ("(a) per JIT kernel (the 47 dispatchers of modern_high_performance and f
 ASSUMPTIONS = [
     "Numba's NUMBA_BOUNDSCHECK=1 is the out-of-bounds monitor; it instruments every nopython array access",
     "a layout a kernel does not accept = numba TypingError / 'No matching definition' at dispatch (counted, not failed)",
-    "compiled vs interpreted values compared at 1e-12 relative (1e-8 for the iterative solvers IKinBody/IKinSpace/"
-    "IKinSpaceConstrained/SPFKinSpaceR, which are only given well-conditioned, converging problems)",
+    "compiled vs interpreted values compared at 1e-12 relative; for the iterative solvers IKinBody/IKinSpace/"
+    "IKinSpaceConstrained/SPFKinSpaceR only the solution is compared, at 1e-4 (solver tolerance 1e-6 over sigma_min), and "
+    "only when both executions report convergence (a non-converged Newton iteration is chaotic in the last bits)",
     "bounds-checked vs unchecked results compared at 1e-12 relative rather than bitwise: enabling the checks changes "
     "LLVM vectorisation and hence summation order",
 ]
@@ -491,6 +492,22 @@ def _inventory():
         _inv_ok.append(True)
 
 
+def _converged(name, case, value):
+    """Did the iterative kernel report convergence?  IK solvers return (theta, success);
+    SPFKinSpaceR returns (pose, iterations) and stops at max_iterations (argument 4) otherwise."""
+    if name == "SPFKinSpaceR":
+        return int(value[1]) < int(case["args"][4])
+    return bool(value[1])
+
+
+def _shape_only(v):
+    if isinstance(v, list):
+        return [_shape_only(x) for x in v]
+    if isinstance(v, np.ndarray):
+        return list(v.shape)
+    return type(v).__name__
+
+
 def check_kernel(case, ctx):
     _inventory()
     name = case["kernel"]
@@ -501,7 +518,9 @@ def check_kernel(case, ctx):
     ctx.nontrivial(any(l != "C" for l in lays))
     rb = ask(True, case)
     r0 = ask(False, case)
-    rtol = 1e-8 if name in ITERATIVE else 1e-12
+    # converged Newton iterations may stop one step apart when the residual crosses the tolerance within
+    # rounding: the two answers then differ by up to the solver tolerance (1e-6 here) over sigma_min
+    rtol = 1e-4 if name in ITERATIVE else 1e-12
     for tag, r in (("boundscheck", rb), ("plain", r0)):
         c, p = r["compiled"], r["pyfunc"]
         if c["status"] == "IndexError":
@@ -515,6 +534,15 @@ def check_kernel(case, ctx):
                                 "out-of-bounds access" % (name, p.get("msg")))
             if p["status"] != "ok":
                 raise Violation("%s: compiled returns but interpreted source fails with %s %s" % (name, p["status"], p.get("msg")))
+            if name in ITERATIVE and not (_converged(name, case, c["value"]) and _converged(name, case, p["value"])):
+                # a Newton iteration that has not converged is chaotic in the last bits: the two executions
+                # legitimately drift apart.  Structure is still compared, values are not (counted).
+                ctx.label("iterative kernel not converged: values not compared")
+                _cmp(_shape_only(c["value"]), _shape_only(p["value"]), 0.0, "%s structure (%s run)" % (name, tag))
+                continue
+            if name in ITERATIVE:
+                _cmp(c["value"][0], p["value"][0], rtol, "%s compiled vs interpreted (%s run)" % (name, tag))
+                continue
             _cmp(c["value"], p["value"], rtol, "%s compiled vs interpreted (%s run)" % (name, tag))
             _cmp(c["args_after"], p["args_after"], rtol, "%s in-place effect compiled vs interpreted" % name)
         else:
@@ -526,7 +554,10 @@ def check_kernel(case, ctx):
     if cb["status"] != c0["status"]:
         raise Violation("%s: status with bounds checking %s, without %s" % (name, cb["status"], c0["status"]))
     if cb["status"] == "ok":
-        _cmp(cb["value"], c0["value"], rtol, "%s bounds-checked vs unchecked" % name)
+        if name in ITERATIVE and not (_converged(name, case, cb["value"]) and _converged(name, case, c0["value"])):
+            return
+        _cmp(cb["value"][0] if name in ITERATIVE else cb["value"], c0["value"][0] if name in ITERATIVE else c0["value"],
+             rtol, "%s bounds-checked vs unchecked" % name)
 
 
 def check_entry(case, ctx):
